@@ -55,19 +55,22 @@ type system struct {
 	c     cfg
 	env   *sk.Env
 	tw    [2]*sk.Machine
-	roots map[string]common.Hash // committed worlds (by text) -> root
+	roots map[string]common.Hash // committed worlds (by text) -> latest root holding that world
+	sent  map[common.Hash]uint64 // root -> sentinel nonce in that state
+	ctr   uint64
 }
 
 func worldKey(w sk.World) string { return fmt.Sprint(w) }
 
 func newSystem(u *sk.Universe, c cfg, rules string, w sk.World) (*system, error) {
-	s := &system{u: u, c: c, env: sk.NewEnv(c.scheme, c.snap), roots: map[string]common.Hash{}}
+	s := &system{u: u, c: c, env: sk.NewEnv(c.scheme, c.snap), roots: map[string]common.Hash{}, sent: map[common.Hash]uint64{}}
 	m, err := sk.NewMachine(u, s.env, rules, w)
 	if err != nil {
 		return nil, err
 	}
 	root := m.LastRoot
 	s.roots[worldKey(w)] = root
+	m.Counter = &s.ctr
 	s.tw[0] = m
 	m2 := *m
 	s.tw[1] = &m2
@@ -104,7 +107,8 @@ func (s *system) apply(a act) (problems []string) {
 				w = pr.World()
 			}
 			s.roots[worldKey(w)] = root
-			problems = append(problems, s.u.VerifyReaders(s.env, root, w)...)
+			s.sent[root] = s.ctr
+			problems = append(problems, s.u.VerifyReaders(s.env, root, w, s.sent[root])...)
 		}
 	case "Open":
 		root, ok := s.roots[worldKey(a.World)]
@@ -130,7 +134,7 @@ func (s *system) apply(a act) (problems []string) {
 			return append(problems, fmt.Sprintf("persisting root %x: %v", root, err))
 		}
 		s.roots = map[string]common.Hash{worldKey(a.World): root}
-		problems = append(problems, s.u.VerifyReaders(s.env, root, a.World)...)
+		problems = append(problems, s.u.VerifyReaders(s.env, root, a.World, s.sent[root])...)
 		for _, m := range s.tw {
 			if err := m.Reopen(root, s.c.prefetch); err != nil {
 				problems = append(problems, fmt.Sprintf("state.New at persisted root %x after reopening the database: %v", root, err))
